@@ -9,6 +9,21 @@ import Mathlib.Logic.Equiv.List
 /-
   C03 / C04 for the cut-and-choose proof of stack equality (shuffle and rotation) of
   Tmcg/Model/StackEq.lean, discrete-log encoding.
+
+  Main statements (all proved, no `sorry`):
+  * `mix_glue`                 mix(mix(s, a), b) = mix(s, glue a b), exactly, as canonical residues
+  * `stackeq_round_extract`    both challenge bits answerable for one commitment ⇒ explicit
+                               collision of `H` or a witness (special soundness of one round)
+  * `stackeq_two_challenges`, `stackeq_soundness_bound`, `stackeq_soundness_prob`
+                               at most one of the `2^κ` challenge vectors is accepted (`≤ 2^-κ`)
+  * `stackeq_complete`         the honest transcript is accepted (shuffle and rotation)
+  * non-vacuity examples on `p = 23, q = 11, g = 2`, and the counterexample for the original
+    verifier rule without the range test of the exponents (finding F26).
+
+  Where the model forces a deviation from the informal statements, the docstring of the theorem
+  says so: bijectivity of the responses comes from the importer (not from `verifyRound`), the
+  importer bounds the stack size by `1 … TMCG_MAX_CARDS`, a missing response reads as the empty
+  text (refused), the membership test is the Schnorr-group one in the completeness theorem.
 -/
 namespace Tmcg.CutChoose
 open Tmcg Tmcg.Powm Tmcg.Vtmf Tmcg.Grp Tmcg.Sigma Tmcg.Stack Tmcg.StackEq Tmcg.SigmaComplete
@@ -1030,15 +1045,18 @@ theorem mem23 (m : Int) (h : 0 < m ∧ m < 23 ∧ m ^ 11 % 23 = 1) :
   rw [← toF_pow, ← toF_one (G := G23), toF_eq_iff valid23]
   exact h.2.2
 
-/-- a well-formed player state over the tiny group (tables as the constructor builds them) -/
-theorem state23 : haveI := fact_prime valid23
-    ∃ St : State, StateOk G23 St ∧ St.h = 3 := by
+/-- the state the constructor and `KeyGenerationProtocol_Finalize` build for `h = 3` -/
+def St23 : State := { G := G23, tabG := ⟨[2, 4, 16, 3]⟩, tabH := ⟨[3, 9, 12, 6]⟩, h := 3 }
+
+theorem St23_ok : haveI := fact_prime valid23
+    StateOk G23 St23 := by
   have := fact_prime valid23
-  obtain ⟨Tg, hTg⟩ := table_exists valid23 (2 : Int)
-  obtain ⟨Th, hTh⟩ := table_exists valid23 (3 : Int)
   have hm := mem23 3 (by decide)
-  exact ⟨{ G := G23, tabG := Tg, tabH := Th, h := 3 },
-    ⟨rfl, hTg, hTh, ⟨hm.1, hm.2.1⟩, hm.2.2⟩, rfl⟩
+  exact ⟨rfl, (show precompute 2 23 (tableLen G23) = .ok ⟨[2, 4, 16, 3]⟩ by rfl),
+    (show precompute 3 23 (tableLen G23) = .ok ⟨[3, 9, 12, 6]⟩ by rfl), ⟨hm.1, hm.2.1⟩, hm.2.2⟩
+
+theorem state23 : haveI := fact_prime valid23
+    ∃ St : State, StateOk G23 St ∧ St.h = 3 := ⟨St23, St23_ok, rfl⟩
 
 /-- `mix_glue` on three cards: all hypotheses are satisfiable (a non-cyclic shuffle glued with a
     rotation, one negative exponent) -/
@@ -1184,16 +1202,6 @@ def verifyRoundNoRange (H : Hash) (St : State) (s s2 : List Card) (cyclic : Bool
   if cyclic ∧ !isCyclic (ss.map Prod.fst) then return false
   return true
 
-/-- the state the constructor and `KeyGenerationProtocol_Finalize` build for `h = 3` -/
-def St23 : State := { G := G23, tabG := ⟨[2, 4, 16, 3]⟩, tabH := ⟨[3, 9, 12, 6]⟩, h := 3 }
-
-theorem St23_ok : haveI := fact_prime valid23
-    StateOk G23 St23 := by
-  have := fact_prime valid23
-  have hm := mem23 3 (by decide)
-  exact ⟨rfl, (show precompute 2 23 (tableLen G23) = .ok ⟨[2, 4, 16, 3]⟩ by decide),
-    (show precompute 3 23 (tableLen G23) = .ok ⟨[3, 9, 12, 6]⟩ by decide), ⟨hm.1, hm.2.1⟩, hm.2.2⟩
-
 example (H : Hash) (b : Bool) :
     verifyRoundNoRange H St23 [⟨1, 1⟩, ⟨1, 1⟩] [⟨1, 2⟩, ⟨1, 2⟩] true
       (commitment H [⟨0, 0⟩, ⟨0, 0⟩]) b [(0, 16), (1, 16)] = .ok true ∧
@@ -1204,7 +1212,7 @@ example (H : Hash) (b : Bool) :
     decide
   have h2 : vtmfMix St23 false [⟨1, 2⟩, ⟨1, 2⟩] [(0, 16), (1, 16)] = .ok [⟨0, 0⟩, ⟨0, 0⟩] := by
     decide
-  have hc : isCyclic (([(0, 16), (1, 16)] : StackSecret Int).map Prod.fst) = true := by decide
+  have hc : isCyclic [0, 1] = true := by decide
   unfold verifyRoundNoRange
   cases b
   · simp [h1, hc, bind, Except.bind, pure, Except.pure]
